@@ -102,6 +102,23 @@ def check_string(ctx: Ctx, stream: str, i: int, subs: str, rng, force=None) -> N
             cfg = {**cfg, 'blocks_shape': bshape, 'leaf_shape': xshape, 'dtypes': dmode}
             stn, want = safe(np.einsum, subs, blocks, x)
             sto, op = safe(lambda: Dense(jnp.asarray(blocks, dtype=bdt), jax.ShapeDtypeStruct(xshape, xdt), subs))
+            # the executable einsum kernel of the model (FuraxModel/EinsumEval.lean, jax dialect: the operator calls
+            # jnp.einsum) on the same exact data: accept / reject, shape and every entry
+            if dmode in ('same', 'int-blocks-float-leaf') and sto == 'ok':
+                from encode import tensor
+                from fractions import Fraction
+                repm = ctx.model.ask(['einsum-eval-jax', subs, tensor(blocks), tensor(x)])
+                stj, yj = safe(lambda: np.asarray(op.mv(jnp.asarray(x, dtype=xdt)), dtype=np.float64))
+                if (repm[0] == 'ok') != (stj == 'ok'):
+                    ctx.disagree(stream, i, f'einsum kernel on {subs!r} blocks {bshape} leaf {xshape}: model {str(repm)[:80]}, '
+                                 f'implementation {stj}', cfg)
+                elif stj == 'ok':
+                    mshape = tuple(int(d) for d in repm[1][1])
+                    mvals = [float(Fraction(v)) for v in repm[1][2]]
+                    if mshape != yj.shape or mvals != yj.ravel().tolist():
+                        ctx.disagree(stream, i, f'einsum kernel on {subs!r}: model shape {mshape} values {mvals[:6]}, implementation '
+                                     f'shape {yj.shape} values {yj.ravel().tolist()[:6]}', cfg)
+                ctx.count('einsum-kernel:' + ('evaluated' if stj == 'ok' else 'both-reject'))
             if stn == 'ok' and sto == 'ok':
                 stm, y = safe(op.mv, jnp.asarray(x, dtype=xdt))
                 if stm != 'ok' or np.asarray(y).shape != want.shape or not np.allclose(np.asarray(y), want, rtol=1e-6, atol=1e-6):
